@@ -650,7 +650,10 @@ class Interp:
         if isinstance(v, SymDict):
             return self.bm.dict_nonempty(self, v)
         if isinstance(v, SymSet):
-            raise Unsupported("truth of symbolic set")
+            w = z3.Const(self.ctx.fresh_name("swit"), v.kty.sort())
+            k = z3.Const(self.ctx.fresh_name("sk"), v.kty.sort())
+            self.ctx.assume(z3.ForAll([k], z3.Implies(z3.Select(v.has, k), z3.Select(v.has, w))))
+            return z3.Select(v.has, w)
         if isinstance(v, (SymObj, FuncVal, ClassVal, BoundMethod, BuiltinVal)):
             return True
         if z3.is_expr(v):
